@@ -1,4 +1,4 @@
-import ConfModel.Spec.Agree
+import ConfModel.Spec.EchoAgree
 namespace ConfModel.Echo
 
 theorem subsumed_nil (a : List Hdr) : subsumed [] a = true := rfl
